@@ -3,7 +3,8 @@ use std::sync::Arc;
 use std::thread;
 use std::time::Duration;
 
-use crate::coroutine_impl::{co_cancel_data, is_coroutine, CoroutineImpl, EventSource};
+use crate::cancel::Cancel;
+use crate::coroutine_impl::{co_get_handle, is_coroutine, CoroutineImpl, EventSource};
 use crate::likely::unlikely;
 use crate::scheduler::get_scheduler;
 use crate::yield_now::{get_co_para, yield_with};
@@ -15,16 +16,23 @@ struct Sleep {
 impl EventSource for Sleep {
     // register the coroutine to the park
     fn subscribe(&mut self, co: CoroutineImpl) {
-        let cancel = co_cancel_data(&co);
-        // put the coroutine into the timer list
-        let sleep_co = Arc::new(AtomicOption::some(co));
-        get_scheduler().add_timer(self.dur, sleep_co.clone());
+        // once the coroutine is published it may be resumed, finish and drop
+        // its last handle on another thread: hold a handle to keep the cancel
+        // data alive and don't touch `self` (it lives on the coroutine stack)
+        let handle = co_get_handle(&co);
+        let cancel = handle.get_cancel();
+        let dur = self.dur;
 
-        // register the cancel data
-        cancel.set_co(sleep_co);
+        let sleep_co = Arc::new(AtomicOption::some(co));
+        // register the cancel data *before* the coroutine is published, so
+        // that a late registration can never overwrite that of a later wait
+        cancel.set_co(sleep_co.clone());
+        // put the coroutine into the timer list
+        get_scheduler().add_timer(dur, sleep_co.clone());
+
         // re-check the cancel status
         if cancel.is_canceled() {
-            unsafe { cancel.cancel() };
+            Cancel::cancel_slot(&sleep_co);
         }
     }
 }
